@@ -320,6 +320,21 @@ def run_long(rec, tier, seed):
 def run_history(rec, tier, seed):
     """Call histories in one process: (alphabet, ignore, dtype) configurations alternated on the same strings - every call must follow
     its own configuration (nothing may be carried over from an earlier call)."""
+    # reverse_complement on tensors with two complement maps that have the SAME keys in the same order but pair them differently,
+    # in alternation: the tensor form must agree with the string form for the map of THIS call
+    from tangermeme.utils import one_hot_encode as _ohe_, reverse_complement as _rc_, characters as _chars_
+    maps = [{"A": "T", "C": "G", "G": "C", "T": "A"}, {"A": "C", "C": "A", "G": "T", "T": "G"}, {"A": "G", "C": "T", "G": "A", "T": "C"},
+            {"A": "T", "C": "G", "G": "C", "T": "A"}]
+    for s_ in ("ACGTTGCA", "AACCGT", "GATTACA"):
+        for mi_, cm in enumerate(maps + maps[::-1]):
+            st1, r_str = call(_rc_, s_, complement_map=cm, allow_N=False)
+            st2, r_t = call(_rc_, _ohe_(s_), complement_map=cm, allow_N=False)
+            rec.case(1, 1)
+            expect = "".join(cm[c] for c in reversed(s_))
+            got_t = _chars_(r_t) if st2 == "ok" else None
+            if st1 != "ok" or st2 != "ok" or r_str != expect or got_t != expect:
+                rec.violation("reverse_complement:map_of_an_earlier_call_applies", dict(fn="reverse_complement", s=s_, complement_map=cm, step=mi_),
+                              expected=expect, observed=[r_str if st1 == "ok" else None, got_t])
     from tangermeme.utils import characters, one_hot_encode, reverse_complement
     cfgs = [("ACGT", "N"), ("ACGT", "NR"), ("ACGT", ""), ("TGCA", "N"), ("ACG", "N"), ("ACGTR", "N"), ("AGCT", "-"), ("ACGT", "N-")]
     strings = ["".join(t) for L in (1, 2, 3) for t in itertools.product("ACGTNR-", repeat=L)]
